@@ -1012,8 +1012,22 @@ func (r *Runner) builtin(ctx context.Context, pos syntax.Pos, name string, args 
 		vr.Kind = expand.Indexed
 		scanner := bufio.NewScanner(r.stdin)
 		scanner.Split(mapfileSplit(delim[0], dropDelim))
+		// Like [Runner.readLine], make a blocked read return once the context is cancelled.
+		var stop func() bool
+		stopc := make(chan struct{})
+		if r.stdin != nil {
+			stop = context.AfterFunc(ctx, func() {
+				r.stdin.SetReadDeadline(time.Now())
+				close(stopc)
+			})
+		}
 		for scanner.Scan() {
 			vr.List = append(vr.List, scanner.Text())
+		}
+		if stop != nil && !stop() {
+			// The AfterFunc was started; wait for it, and reset the file's deadline.
+			<-stopc
+			r.stdin.SetReadDeadline(time.Time{})
 		}
 		if err := scanner.Err(); err != nil {
 			return failf(2, "%s: unable to read, %v\n", name, err)
